@@ -24,8 +24,8 @@ use crate::classic::crypto_sign_ed25519::*;
 use curve25519_dalek::montgomery::MontgomeryPoint;
 use curve25519_dalek::edwards::EdwardsBasepointTable;
 
-pub struct KgState { pub magic: u64, pub bp_n: usize, pub bp_scalar: [u8; 32], pub comp_n: usize, pub comp_out: [u8; 32], pub tm_n: usize, pub tm_out: [u8; 32] }
-pub static mut KGS: KgState = KgState { magic: 0x4B47000C53EDC0DE, bp_n: 0, bp_scalar: [0; 32], comp_n: 0, comp_out: [0; 32], tm_n: 0, tm_out: [0; 32] };
+pub struct KgState { pub magic: u64, pub bp_n: usize, pub bp_scalar: [u8; 32], pub comp_n: usize, pub comp_out: [u8; 32], pub tm_n: usize, pub tm_out: [u8; 32], pub tf_n: usize, pub tf_out: bool }
+pub static mut KGS: KgState = KgState { magic: 0x4B47000C53EDC0DE, bp_n: 0, bp_scalar: [0; 32], comp_n: 0, comp_out: [0; 32], tm_n: 0, tm_out: [0; 32], tf_n: 0, tf_out: true };
 fn kg_bp_mul_stub<'a, 'b>(_t: &'a EdwardsBasepointTable, s: &'b Scalar) -> EdwardsPoint where 'a: 'a, 'b: 'b {
     unsafe { KGS.bp_scalar = bytes_of(s); KGS.bp_n += 1; }
     any_point()
@@ -39,6 +39,11 @@ fn kg_to_montgomery_stub(_p: &EdwardsPoint) -> MontgomeryPoint {
     let o: [u8; 32] = kani::any();
     unsafe { KGS.tm_out = o; KGS.tm_n += 1; }
     MontgomeryPoint(o)
+}
+fn kg_torsion_free_stub(_p: &EdwardsPoint) -> bool {
+    let r: bool = kani::any();
+    unsafe { KGS.tf_n += 1; KGS.tf_out = r; }
+    r
 }
 fn sha_preset() { unsafe { let a: [u8; 64] = kani::any(); DKS.sha_out[0] = a; } }
 fn sha0_is(v: &[u8]) -> bool {
@@ -155,7 +160,8 @@ fn c13_sk_to_curve() {
     }
 }
 ''')
-HS["c13_pk_to_curve"] = ("crypto_sign_ed25519_pk_to_curve25519", ("barrier", "fmt", "decompress"), ED_EXTRA, 40, r'''
+HS["c13_pk_to_curve"] = ("crypto_sign_ed25519_pk_to_curve25519", ("barrier", "fmt", "decompress", "small_order"),
+                          ED_EXTRA + [("curve25519_dalek::edwards::EdwardsPoint::is_torsion_free", "kg_torsion_free_stub")], 40, r'''
 fn c13_pk_to_curve() {
     let pk: [u8; 32] = kani::any();
     wit!(W_0, &pk);
@@ -165,7 +171,11 @@ fn c13_pk_to_curve() {
     kani::cover!(r.is_err(), "conversion fails");
     unsafe {
         assert!(DKS.dec_n == 1 && DKS.dec_in[0] == pk, "PK_CONVERT_DECODES_PK: the Ed25519 public key is decoded");
-        assert!(r.is_ok() == DKS.dec_some[0], "PK_CONVERT_VERDICT: the conversion fails exactly when the key does not decode to a curve point");
+        if !DKS.dec_some[0] { assert!(r.is_err(), "PK_CONVERT_VERDICT: a key that does not decode to a curve point is refused"); }
+        // libsodium additionally refuses small-order and off-subgroup points; nothing else may be refused (honest keys always convert)
+        let small = DKS.small_n > 0 && DKS.small_out[0];
+        let off_subgroup = KGS.tf_n > 0 && !KGS.tf_out;
+        if r.is_err() { assert!(!DKS.dec_some[0] || small || off_subgroup, "PK_CONVERT_VERDICT: a decodable, large-order, on-subgroup key always converts"); }
         if r.is_ok() { assert!(KGS.tm_n == 1 && x == KGS.tm_out, "PK_CONVERT: X25519 public key = Montgomery form of the decoded point"); }
     }
 }
@@ -216,23 +226,28 @@ def replay(v, scratch):
                 "    let wsk: [u8; 32] = %s; let wpk: [u8; 32] = %s;\n    if sk != wsk || pk != wpk { println!(\"MISMATCH box seed keypair differs from libsodium's construction for a %d-byte seed\"); std::process::exit(1); }\n"
                 "    println!(\"agree\");\n}\n") % (runner.rust_bytes(list(seed)), runner.rust_bytes(list(sk)), runner.rust_bytes(list(pk.raw)), n)
     elif site == "crypto_sign_ed25519_pk_to_curve25519":
-        # honest key pairs must convert, and to libsodium's value
-        main = "use dryoc::classic::crypto_sign::*;\nuse dryoc::classic::crypto_sign_ed25519::*;\nfn main() {\n    let mut bad = false;\n"
-        cases = []
-        for i in range(3000):
-            seed = bytes([(i * 7 + j * 13 + (i >> 8)) & 0xff for j in range(32)])
-            pk = ctypes.create_string_buffer(32); sk = ctypes.create_string_buffer(64)
-            so.crypto_sign_seed_keypair(pk, sk, seed)
-            x = ctypes.create_string_buffer(32)
-            rc = so.crypto_sign_ed25519_pk_to_curve25519(x, pk.raw)
-            # keep the unusual encodings (high byte pattern) plus a few ordinary ones
-            if i < 5 or (pk.raw[31] & 0x7f) == 0x7f or pk.raw[0] >= 0xed:
-                cases.append((pk.raw, rc, x.raw))
-        for pk, rc, x in cases[:40]:
-            main += ("    { let pk: [u8; 32] = %s; let mut x = [0u8; 32]; let r = crypto_sign_ed25519_pk_to_curve25519(&mut x, &pk);\n"
-                     "      if r.is_ok() != %s || (r.is_ok() && x != %s) { println!(\"MISMATCH pk_to_curve25519 differs from libsodium for pk {:02x?}\", &pk[..4]); bad = true; } }\n") % (
-                runner.rust_bytes(list(pk)), "true" if rc == 0 else "false", runner.rust_bytes(list(x)))
-        main += "    if bad { std::process::exit(1); }\n    println!(\"agree\");\n}\n"
+        # every honestly generated key pair must convert, and consistently: search honest keys (seeded, deterministic)
+        main = r'''
+use dryoc::classic::crypto_sign::*; use dryoc::classic::crypto_sign_ed25519::*; use dryoc::classic::crypto_core::crypto_scalarmult_base;
+fn main() {
+    let mut seed = [0u8; 32];
+    for i in 0u32..300000 {
+        seed[..4].copy_from_slice(&i.to_le_bytes()); seed[4] = 0xC1; seed[5] = 0x3D;
+        let (pk, sk) = crypto_sign_seed_keypair(&seed);
+        let mut x = [0u8; 32];
+        if crypto_sign_ed25519_pk_to_curve25519(&mut x, &pk).is_err() { println!("MISMATCH honest Ed25519 public key {:02x?} (seed index {}) does not convert", pk, i); std::process::exit(1); }
+        if i % 4096 == 0 {
+            let mut xs = [0u8; 32]; crypto_sign_ed25519_sk_to_curve25519(&mut xs, &sk);
+            let mut xp = [0u8; 32]; crypto_scalarmult_base(&mut xp, &xs);
+            if xp != x { println!("MISMATCH converted pair inconsistent for seed index {}", i); std::process::exit(1); }
+        }
+    }
+    println!("agree");
+}
+'''
+        outs = runner.native_run(scratch, "c13", main, profiles=("release",), timeout=1800)
+        v["replay_input"] = {"program": main}
+        return any(rc == 1 and "MISMATCH" in o for _, rc, o in outs), "; ".join("%s rc=%s %s" % (p, rc, o.strip()[-300:]) for p, rc, o in outs)
     else:
         return None, "no native replay template for site %s" % site
     outs = runner.native_run(scratch, "c13", main)
